@@ -69,6 +69,33 @@ func freshValid(used map[netip.Addr]bool) *m.Address {
 	}
 }
 
+var highEasingCache = map[string]*m.Address{}
+
+// highEasing returns a valid identity for the key of base whose easing value needs more than
+// 32 bits: the address really is the digest of (key, easing), found by search.
+func highEasing(e *core.Env, base *m.Address, k int) *m.Address {
+	key := fmt.Sprintf("%s/%d", base.IP, k)
+	if a, ok := highEasingCache[key]; ok {
+		return a
+	}
+	start := uint64(1+k) << 32
+	for i := uint64(0); i < 3000000; i++ {
+		ip, err := m.DigestToAddress(base.Hash, base.Type, base.PublicKey, start+i)
+		if err != nil || m.GetAddressType(ip) != m.TypeGeoMarked {
+			continue
+		}
+		a, err := m.AddressFromStorage(m.AddressStorage{IP: ip.String(), Hash: base.Hash, Type: base.Type, Easing: start + i,
+			PublicKey: hex.EncodeToString(base.PublicKey), PrivateKey: hex.EncodeToString(base.PrivateKey)})
+		if err != nil {
+			e.Fail("valid-identity-rejected/storage", "identity with easing %d whose address %s is the digest of its key is refused: %v", start+i, ip, err)
+		}
+		highEasingCache[key] = a
+		return a
+	}
+	e.Infra("no high-easing identity found")
+	return nil
+}
+
 // corrupt changes exactly one field of a valid identity.
 func corrupt(e *core.Env, tp *core.Tape, base *m.Address, allowEasing, allowHuge bool) presented {
 	p := presented{pa: base.PublicAddress, priv: base.PrivateKey}
@@ -133,6 +160,9 @@ func corrupt(e *core.Env, tp *core.Tape, base *m.Address, allowEasing, allowHuge
 				continue
 			}
 			switch {
+			case tp.Chance(1, 3):
+				p.pa.Easing ^= 1 << (32 + tp.Intn(32))
+				p.what = "a high bit of the easing value flipped"
 			case p.pa.Easing == 0:
 				p.pa.Easing = uint64(1 + tp.Intn(1000))
 				p.what = "easing added"
@@ -150,6 +180,7 @@ func corrupt(e *core.Env, tp *core.Tape, base *m.Address, allowEasing, allowHuge
 
 func run(e *core.Env) {
 	tp := e.Tape
+	idCounter = 0
 	e.StartClock()
 	node.CaptureStderr()
 	node.NewStderr()
@@ -246,6 +277,10 @@ func run(e *core.Env) {
 		if allowEasing && len(eased) > 0 && tp.Chance(1, 2) {
 			base, eased = eased[0], eased[1:]
 			e.Probe("eased_identity_presented")
+		} else if allowEasing && tp.Chance(1, 6) {
+			base = highEasing(e, base, tp.Intn(3))
+			used[base.IP] = true
+			e.Probe("identity_with_easing_above_32_bits")
 		}
 		if tp.Chance(1, 3) {
 			return presented{pa: base.PublicAddress, priv: base.PrivateKey, valid: true, what: "valid"}
